@@ -143,6 +143,9 @@ QUERIES = {
 }
 
 
+SHARING = {}     # query name -> number of times its result shared Gate objects with the argument (observation)
+
+
 def run_query(name, qc):
     """-> ("ok", snapshot of the result) | ("exc", class name)"""
     from qutip_qip.operations import Measurement
@@ -150,7 +153,12 @@ def run_query(name, qc):
         # would draw measurement outcomes at random (np.random): not a deterministic query
         return ("na", "compute_unitary of a circuit with measurements")
     try:
-        return ("ok", snap(QUERIES[name](qc)))
+        r = QUERIES[name](qc)
+        if hasattr(r, "gates") and r is not qc:
+            ids = {id(g) for g in qc.gates}
+            if any(id(g) in ids for g in r.gates):
+                SHARING[name] = SHARING.get(name, 0) + 1
+        return ("ok", snap(r))
     except Exception as e:
         return ("exc", type(e).__name__)
 
@@ -739,6 +747,9 @@ class C16(PropertyCheck):
                 if diff:
                     res.disagree(dict(inp, prefix=k + 1), o[:300], "see `what`", diff, w)
                     break
+        res.notes.append("observation (not a violation: the aliasing clause is about results of run/run_statistics): "
+                         "transformations whose returned circuit shares Gate objects with its argument, with counts: "
+                         + json.dumps(SHARING, sort_keys=True))
         res.notes.append("simulator histories: after every call the caller's lists, the returned records (values and "
                          "list identities), the executed operations and finally every simulator attribute are compared "
                          "with the model; circuit and state arguments are snapshotted (vars()-level, arrays by value) "
